@@ -728,3 +728,42 @@ pub fn sample_one<S: Strategy>(strat: &S, seed: [u8; 32]) -> S::Value {
     let mut runner = TestRunner::new_with_rng(Config::default(), TestRng::from_seed(RngAlgorithm::ChaCha, &seed));
     strat.new_tree(&mut runner).unwrap().current()
 }
+
+/// Iterator adaptors that std implements on top of `next()` — unless the library overrides them. For a
+/// freshly made iterator (via `mk`) and the expected item list `want`, check nth / skip / step_by / count /
+/// last / partially-consumed count / size_hint against the same adaptors on the expected list.
+pub fn adaptors_agree<T, I, F>(what: &str, want: &[T], k: usize, mk: F) -> Result<(), Violation>
+where
+    T: PartialEq + Debug + Clone,
+    I: Iterator<Item = T>,
+    F: Fn() -> I,
+{
+    let n = want.len();
+    let cap = n + 2; // never collect unboundedly from a possibly broken iterator
+    let ks = [0usize, 1, k % (n + 2), n.saturating_sub(1), n, n + 1];
+    for &k in &ks {
+        let got = mk().nth(k);
+        vensure!(got.as_ref() == want.get(k), "iterator-adaptor/nth", "{}: nth({}) = {:?}, expected {:?}", what, k, got, want.get(k));
+        let got: Vec<T> = mk().skip(k).take(cap).collect();
+        let exp: Vec<T> = want.iter().skip(k).cloned().collect();
+        vensure!(got == exp, "iterator-adaptor/skip", "{}: skip({}) yields {} items {:?}, expected {} items", what, k, got.len(), &got[..got.len().min(4)], exp.len());
+        let mut it = mk();
+        for _ in 0..k.min(n) {
+            it.next();
+        }
+        let c = it.take(cap).count();
+        vensure!(c == n - k.min(n), "iterator-adaptor/count-after-partial", "{}: after {} calls of next(), count() = {}, expected {}", what, k.min(n), c, n - k.min(n));
+    }
+    for s in [1usize, 2, 3, k % 5 + 1] {
+        let got: Vec<T> = mk().step_by(s).take(cap).collect();
+        let exp: Vec<T> = want.iter().step_by(s).cloned().collect();
+        vensure!(got == exp, "iterator-adaptor/step_by", "{}: step_by({}) yields {} items, expected {}", what, s, got.len(), exp.len());
+    }
+    let c = mk().take(cap).count();
+    vensure!(c == n, "iterator-adaptor/count", "{}: count() = {}, expected {}", what, c, n);
+    let l = mk().take(cap).last();
+    vensure!(l.as_ref() == want.last(), "iterator-adaptor/last", "{}: last() = {:?}, expected {:?}", what, l, want.last());
+    let (lo, hi) = mk().size_hint();
+    vensure!(lo <= n && hi.map(|h| h >= n).unwrap_or(true), "iterator-adaptor/size_hint", "{}: size_hint() = ({}, {:?}) but the iterator yields {} items", what, lo, hi, n);
+    Ok(())
+}
